@@ -144,6 +144,7 @@ Verdict(r) ==
             ELSE IF ~NewRowsUniqueG(h2, from, gone) THEN "I_Unique: structure exists twice"
             ELSE IF ~LeavesOK(h2, u2) THEN "I_Leaves: leaf missing from table"
             ELSE IF ~r.keyok THEN "table key differs from its value"
+            ELSE IF r.size # Cardinality(u2) THEN "size() differs from the number of distinct table values"
             ELSE IF ~r.stable THEN "A_AppendOnly: an earlier node changed"
             ELSE IF ~(Reach(h2, r.res) \subseteq u2) THEN "I_Closed: result node not in table"
             ELSE IF r.udel # <<>> /\ ~(\A k \in live : Reach(h2, handles[k]) \subseteq u2)
